@@ -34,3 +34,67 @@ pub fn by_id(id: &str) -> Option<Property> {
 pub struct PosCase {
     pub fen: String,
 }
+
+/// A libFuzzer input (committed corpus file or crash artefact), replayed through the same entry
+/// function the fuzz target calls.
+#[derive(Debug, Clone, serde::Serialize, serde::Deserialize)]
+pub struct FuzzCase {
+    pub target: String,
+    pub bytes_hex: String,
+}
+
+pub fn hex(data: &[u8]) -> String {
+    data.iter().map(|b| format!("{b:02x}")).collect()
+}
+
+pub fn unhex(s: &str) -> Option<Vec<u8>> {
+    if s.len() % 2 != 0 {
+        return None;
+    }
+    (0..s.len()).step_by(2).map(|i| u8::from_str_radix(&s[i..i + 2], 16).ok()).collect()
+}
+
+pub fn check_fuzz_case(c: &FuzzCase, ctx: &mut crate::run::Ctx) -> Result<(), String> {
+    let data = unhex(&c.bytes_hex).ok_or_else(|| "HARNESS: bad hex in fuzz case".to_string())?;
+    crate::fuzz_entry::run(&c.target, &data)?;
+    ctx.nontrivial((&c.target, &c.bytes_hex));
+    ctx.sample(|| serde_json::json!({"target": c.target, "bytes": data.len(), "text": String::from_utf8_lossy(&data).chars().take(120).collect::<String>()}));
+    Ok(())
+}
+
+fn corpus_cases(target: &str) -> Vec<FuzzCase> {
+    let dir = crate::run::verif_root().join("corpus").join(target);
+    let mut files: Vec<std::path::PathBuf> = std::fs::read_dir(&dir).map(|rd| rd.filter_map(|e| e.ok().map(|e| e.path())).collect()).unwrap_or_default();
+    files.sort();
+    files.iter().filter_map(|f| std::fs::read(f).ok()).map(|d| FuzzCase { target: target.to_string(), bytes_hex: hex(&d) }).collect()
+}
+
+macro_rules! fuzz_corpus_part {
+    ($target:literal) => {
+        crate::run::Part {
+            name: concat!("fuzz_corpus_", $target),
+            quick: 0,
+            thorough: 0,
+            single_shard: true,
+            supplementary: true,
+            run: |cfg| crate::run::run_exhaustive(cfg, crate::props::corpus_cases_pub($target).into_iter(), crate::props::check_fuzz_case),
+            replay: |v| crate::run::replay_case::<crate::props::FuzzCase, _>(v, crate::props::check_fuzz_case),
+        }
+    };
+}
+pub(crate) use fuzz_corpus_part;
+
+pub fn corpus_cases_pub(target: &str) -> Vec<FuzzCase> {
+    corpus_cases(target)
+}
+
+/// which libFuzzer target deepens which property in the thorough tier
+pub fn fuzz_target_of(id: &str) -> Option<&'static str> {
+    match id {
+        "C01" => Some("board_ops"),
+        "C12" => Some("fen"),
+        "C15" => Some("uci_line"),
+        "C17" => Some("pgn_stream"),
+        _ => None,
+    }
+}
